@@ -41,6 +41,10 @@ enum St {
     For(String, usize, Vec<St>),
     Match(String, usize, Vec<St>),
     Lam(String, usize, Vec<St>),
+    /// match with several arms, each binding at most one name and each with its own scope
+    MArms(usize, Vec<(Option<(String, usize)>, Vec<St>)>),
+    /// if / else (both branches are executed once by the rendering)
+    IfElse(usize, Vec<St>, Vec<St>),
     /// qualified variant pattern `Ty.V` in a match arm (resolved through `lookup_namespace`)
     PMatch(String, String),
     /// variant expression `[alias.]Ty.V` (resolved through the declarations)
@@ -79,6 +83,8 @@ struct Gen<'a> {
     visible_enums: Vec<(String, Vec<String>)>,
     /// only generate uses that resolve (names visible at that point, existing variants)
     strict: bool,
+    /// names bound inside the sibling scope closed last
+    ghost: Vec<String>,
 }
 
 impl<'a> Gen<'a> {
@@ -105,6 +111,78 @@ impl<'a> Gen<'a> {
         let n = 1 + self.rng.below(len);
         let mut v = vec![];
         for _ in 0..n {
+            // a name bound inside the sibling scope that was just closed: a later sibling must not see it
+            if !self.ghost.is_empty() && self.rng.chance(1, 2) {
+                let g = self.ghost[self.rng.below(self.ghost.len() as u64) as usize].clone();
+                self.ghost.clear();
+                if !self.strict || env.contains(&g) {
+                    v.push(St::Use(g));
+                    continue;
+                }
+            }
+            self.ghost.clear();
+            if depth < 3 && self.rng.chance(1, 5) {
+                // multi-arm match / if-else: sibling scopes; binders reuse visible names, later siblings use them
+                let id = self.id();
+                if self.rng.chance(2, 3) {
+                    let narms = 2 + self.rng.below(2) as usize;
+                    let mut arms = vec![];
+                    let mut earlier: Vec<String> = vec![];
+                    for _ in 0..narms {
+                        let binder = if self.rng.chance(3, 4) {
+                            let x = if !env.is_empty() && self.rng.chance(2, 3) {
+                                env[self.rng.below(env.len() as u64) as usize].clone()
+                            } else {
+                                self.name()
+                            };
+                            Some((x, self.id()))
+                        } else {
+                            None
+                        };
+                        let mark = env.len();
+                        if let Some((x, _)) = &binder {
+                            env.push(x.clone());
+                        }
+                        let mut body = vec![];
+                        // the use that tells arm scopes apart: a name an earlier arm bound
+                        let cands: Vec<String> = earlier
+                            .iter()
+                            .filter(|n| binder.as_ref().map(|b| &b.0 != *n).unwrap_or(true))
+                            .filter(|n| !self.strict || env.contains(n))
+                            .cloned()
+                            .collect();
+                        if !cands.is_empty() && self.rng.chance(4, 5) {
+                            body.push(St::Use(cands[self.rng.below(cands.len() as u64) as usize].clone()));
+                        }
+                        self.ghost.clear();
+                        body.extend(self.stmts(depth + 1, env, members, 2));
+                        env.truncate(mark);
+                        if let Some((x, _)) = &binder {
+                            earlier.push(x.clone());
+                        }
+                        arms.push((binder, body));
+                    }
+                    self.ghost = earlier;
+                    v.push(St::MArms(id, arms));
+                } else {
+                    let mark = env.len();
+                    self.ghost.clear();
+                    let a = self.stmts(depth + 1, env, members, 3);
+                    let bound: Vec<String> = a.iter().filter_map(|s| if let St::Let(x, _) = s { Some(x.clone()) } else { None }).collect();
+                    env.truncate(mark);
+                    let mut b = vec![];
+                    let cands: Vec<String> = bound.iter().filter(|n| !self.strict || env.contains(n)).cloned().collect();
+                    if !cands.is_empty() && self.rng.chance(4, 5) {
+                        b.push(St::Use(cands[self.rng.below(cands.len() as u64) as usize].clone()));
+                    }
+                    self.ghost.clear();
+                    b.extend(self.stmts(depth + 1, env, members, 2));
+                    env.truncate(mark);
+                    self.ghost = bound;
+                    v.push(St::IfElse(id, a, b));
+                }
+                continue;
+            }
             let k = self.rng.below(if depth >= 3 { 6 } else { 11 });
             if !self.type_names.is_empty() && self.rng.chance(1, 5) && !(self.strict && self.visible_enums.is_empty()) {
                 // a use of an enum variant, as a pattern or as an expression; 5 in 6 name a visible type
@@ -170,15 +248,17 @@ impl<'a> Gen<'a> {
                     let mark = env.len();
                     let b = self.stmts(depth + 1, env, members, 3);
                     env.truncate(mark);
+                    self.ghost = b.iter().filter_map(|s| if let St::Let(x, _) = s { Some(x.clone()) } else { None }).collect();
                     St::Block(self.rng.below(3) as u8, b)
                 }
                 _ => {
-                    let x = self.name();
+                    let x = if !env.is_empty() && self.rng.chance(1, 2) { env[self.rng.below(env.len() as u64) as usize].clone() } else { self.name() };
                     let id = self.id();
                     let mark = env.len();
                     env.push(x.clone());
                     let b = self.stmts(depth + 1, env, members, 3);
                     env.truncate(mark);
+                    self.ghost = vec![x.clone()];
                     match k {
                         8 => St::For(x, id, b),
                         9 => St::Match(x, id, b),
@@ -482,6 +562,24 @@ fn ref_stmts(w: &World, env: &mut Vec<(String, RDecl)>, ss: &[St], out: &mut Vec
                 };
                 out.push(r);
             }
+            // sibling scopes: every arm / branch sees the environment of the whole statement only
+            St::MArms(_, arms) => {
+                for (b, body) in arms {
+                    let mark = env.len();
+                    if let Some((x, id)) = b {
+                        env.push((x.clone(), RDecl::Loc(*id)));
+                    }
+                    ref_stmts(w, env, body, out);
+                    env.truncate(mark);
+                }
+            }
+            St::IfElse(_, a, b) => {
+                for body in [a, b] {
+                    let mark = env.len();
+                    ref_stmts(w, env, body, out);
+                    env.truncate(mark);
+                }
+            }
             // the property: a type name in a pattern denotes the same declaration as in an expression
             St::PMatch(ty, v) => {
                 let d = env.iter().rev().find(|(n, _)| n == ty).map(|(_, d)| d.clone());
@@ -648,6 +746,31 @@ fn render_stmts(w: &World, k: usize, res: &[Option<RDecl>], ss: &[St], ind: usiz
                 *n_use += 1;
                 src.push_str("(0)\n");
             }
+            St::MArms(id, arms) => {
+                // the match sits in a helper lambda that is called once per arm, so every arm runs
+                src.push_str(&format!("{pad}let mm{id} = (s{id}: int, v{id}: int -> void) -> {{\n{pad}  match (s{id}, v{id}) {{\n"));
+                for (j, (b, body)) in arms.iter().enumerate() {
+                    let pat = match b {
+                        Some((x, _)) => x.clone(),
+                        None => "_".to_string(),
+                    };
+                    src.push_str(&format!("{pad}    ({j}, {pat}) -> {{\n"));
+                    render_stmts(w, k, res, body, ind + 3, src, seg, n_use, uses);
+                    src.push_str(&format!("{pad}    }}\n"));
+                }
+                src.push_str(&format!("{pad}    _ -> {{\n{pad}      println(\"never\")\n{pad}    }}\n{pad}  }}\n{pad}}}\n"));
+                for (j, (b, _)) in arms.iter().enumerate() {
+                    let lid = b.as_ref().map(|x| x.1).unwrap_or(0);
+                    src.push_str(&format!("{pad}mm{id}({j}, (z: int) -> println(\"L{lid}\"))\n"));
+                }
+            }
+            St::IfElse(id, a, b) => {
+                src.push_str(&format!("{pad}let ie{id} = (c{id}: bool) -> {{\n{pad}  if c{id} {{\n"));
+                render_stmts(w, k, res, a, ind + 2, src, seg, n_use, uses);
+                src.push_str(&format!("{pad}  }} else {{\n"));
+                render_stmts(w, k, res, b, ind + 2, src, seg, n_use, uses);
+                src.push_str(&format!("{pad}  }}\n{pad}}}\n{pad}ie{id}(true)\n{pad}ie{id}(false)\n"));
+            }
             St::Block(kind, body) => {
                 match kind {
                     0 => src.push_str(&format!("{pad}{{\n")),
@@ -755,6 +878,25 @@ fn enc_stmts(ss: &[St], out: &mut String) {
             St::Let(x, id) => out.push_str(&format!("l{x}.{id};")),
             St::Use(x) => out.push_str(&format!("u{x};")),
             St::QUse(q, x) => out.push_str(&format!("q{q}.{x};")),
+            St::MArms(_, arms) => {
+                out.push_str("M<");
+                for (b, body) in arms {
+                    match b {
+                        Some((x, id)) => out.push_str(&format!("a{x}.{id}{{")),
+                        None => out.push_str("n{"),
+                    }
+                    enc_stmts(body, out);
+                    out.push('}');
+                }
+                out.push('>');
+            }
+            St::IfElse(_, a, b) => {
+                out.push_str("I{");
+                enc_stmts(a, out);
+                out.push_str("}{");
+                enc_stmts(b, out);
+                out.push('}');
+            }
             St::PMatch(ty, v) => out.push_str(&format!("x_.{ty}.{v};")),
             St::EUse(pre, ty, v) => out.push_str(&format!("y{}.{ty}.{v};", pre.clone().unwrap_or_else(|| "_".into()))),
             St::Block(_, b) => {
@@ -946,6 +1088,22 @@ fn strip_builtin_uses(ss: &mut Vec<St>, res: &[Option<RDecl>], idx: &mut usize) 
             }
             St::Let(..) => {}
             St::PMatch(..) | St::EUse(..) => *idx += 1,
+            St::MArms(_, arms) => {
+                for (_, b) in arms.iter_mut() {
+                    strip_builtin_uses(b, res, idx);
+                    if b.is_empty() {
+                        b.push(St::Let("u".into(), 0));
+                    }
+                }
+            }
+            St::IfElse(_, a, b) => {
+                for body in [a, b] {
+                    strip_builtin_uses(body, res, idx);
+                    if body.is_empty() {
+                        body.push(St::Let("u".into(), 0));
+                    }
+                }
+            }
             St::Block(_, b) | St::For(_, _, b) | St::Match(_, _, b) | St::Lam(_, _, b) => {
                 strip_builtin_uses(b, res, idx);
                 if b.is_empty() {
@@ -966,7 +1124,7 @@ fn main() {
     let n_prog = if ctx.quick() { 700 } else { 12000 };
     let mut worlds: Vec<World> = vec![];
     {
-        let mut g = Gen { rng: &mut ctx.rng, next_id: 0, type_names: vec![], visible_types: vec![], visible_enums: vec![], strict: false };
+        let mut g = Gen { rng: &mut ctx.rng, next_id: 0, type_names: vec![], visible_types: vec![], visible_enums: vec![], strict: false, ghost: vec![] };
         for i in 0..n_prog {
             g.next_id = 0;
             let mut w = g.world(i % 2 == 0);
@@ -1019,6 +1177,36 @@ fn main() {
             format!("answer:{}", imp.split(' ').next().unwrap_or(""))
         };
         ctx.count(&class);
+        fn shapes(ss: &[St], ctx: &mut Ctx) {
+            for s in ss {
+                match s {
+                    St::MArms(_, arms) => {
+                        ctx.count(&format!("shape:match-{}-arms", arms.len()));
+                        let mut earlier: Vec<&String> = vec![];
+                        for (b, body) in arms {
+                            if body.iter().any(|u| matches!(u, St::Use(x) if earlier.contains(&x) && b.as_ref().map(|bb| &bb.0 != x).unwrap_or(true))) {
+                                ctx.count("shape:later-arm-uses-earlier-arm-binder");
+                            }
+                            if let Some((x, _)) = b {
+                                earlier.push(x);
+                            }
+                            shapes(body, ctx);
+                        }
+                    }
+                    St::IfElse(_, a, b) => {
+                        ctx.count("shape:if-else");
+                        shapes(a, ctx);
+                        shapes(b, ctx);
+                    }
+                    St::Block(_, b) | St::For(_, _, b) | St::Match(_, _, b) | St::Lam(_, _, b) => shapes(b, ctx),
+                    _ => {}
+                }
+            }
+        }
+        for f in &w.files {
+            shapes(&f.probe, &mut ctx);
+            shapes(&f.top, &mut ctx);
+        }
         // shadowing statistics from the reference
         for k in 0..w.files.len() {
             for d in rr.probe[k].iter().chain(rr.top[k].iter()) {
